@@ -72,6 +72,16 @@ func ReachFromExec(fn *ssa.Function, start Edge, cut map[Edge]bool) (map[*ssa.Ba
 }
 
 func reachExec(fn *ssa.Function, cut map[Edge]bool, decide func(*ssa.If) (int, bool), start *Edge) (map[*ssa.BasicBlock]bool, map[Edge]bool) {
+	return reachExecAssume(fn, cut, decide, start, nil)
+}
+
+// ReachFromAssume is ReachFromExec with values the caller knows not to be nil on the part of the run that is explored
+// (the error of the call whose failure is being followed).
+func ReachFromAssume(fn *ssa.Function, start Edge, cut map[Edge]bool, nonNil func(ssa.Value) bool) (map[*ssa.BasicBlock]bool, map[Edge]bool) {
+	return reachExecAssume(fn, cut, nil, &start, nonNil)
+}
+
+func reachExecAssume(fn *ssa.Function, cut map[Edge]bool, decide func(*ssa.If) (int, bool), start *Edge, nonNil func(ssa.Value) bool) (map[*ssa.BasicBlock]bool, map[Edge]bool) {
 	if len(fn.Blocks) == 0 {
 		return nil, nil
 	}
@@ -107,6 +117,9 @@ func reachExec(fn *ssa.Function, cut map[Edge]bool, decide func(*ssa.If) (int, b
 		if depth > 8 {
 			return over
 		}
+		if nonNil != nil && nonNil(v) {
+			return cFalse
+		}
 		switch x := v.(type) {
 		case *ssa.Const:
 			if x.IsNil() {
@@ -119,6 +132,11 @@ func reachExec(fn *ssa.Function, cut map[Edge]bool, decide func(*ssa.If) (int, b
 			switch CalleeName(x.Common()) {
 			case "errors.New", "fmt.Errorf", "github.com/pkg/errors.New", "github.com/pkg/errors.Errorf":
 				return cFalse
+			case "github.com/pkg/errors.Wrap", "github.com/pkg/errors.Wrapf", "github.com/pkg/errors.WithMessage", "github.com/pkg/errors.WithMessagef", "github.com/pkg/errors.WithStack":
+				// nil for a nil error, an error otherwise
+				if len(x.Call.Args) > 0 {
+					return evalNil(x.Call.Args[0], depth+1)
+				}
 			}
 			return over
 		case *ssa.Phi:
